@@ -224,6 +224,15 @@ fn rename_unit_refs(merge_module: &mut Module, rename_table: &HashMap<String, St
             }
         }
     }
+
+    // a UNIT can refer to another UNIT
+    for unit in &mut merge_module.unit {
+        if let Some(ref_unit) = &mut unit.ref_unit {
+            if let Some(newname) = rename_table.get(&ref_unit.unit) {
+                ref_unit.unit = newname.to_owned();
+            }
+        }
+    }
 }
 
 // ------------------------ COMPU_TAB / COMPU_VTAB / COMPU_VTAB_RANGE ------------------------
@@ -356,6 +365,16 @@ fn rename_compu_method_refs(merge_module: &mut Module, rename_table: &HashMap<St
     for typedef_measurement in &mut merge_module.typedef_measurement {
         if let Some(newname) = rename_table.get(&typedef_measurement.conversion) {
             typedef_measurement.conversion = newname.to_owned();
+        }
+    }
+
+    for instance in &mut merge_module.instance {
+        for overwrite in &mut instance.overwrite {
+            if let Some(conversion) = &mut overwrite.conversion {
+                if let Some(newname) = rename_table.get(&conversion.name) {
+                    conversion.name = newname.to_owned();
+                }
+            }
         }
     }
 }
@@ -590,12 +609,54 @@ fn rename_objects(merge_module: &mut Module, rename_table: &HashMap<String, Stri
                 }
             }
         }
+        // MODULE.CHARACTERISTIC.COMPARISON_QUANTITY
+        if let Some(comparison_quantity) = &mut characteristic.comparison_quantity {
+            if let Some(newname) = rename_table.get(&comparison_quantity.name) {
+                comparison_quantity.name = newname.to_owned();
+            }
+        }
         // MODULE.CHARACTERISTIC.DEPENDENT_CHARACTERISTIC
         if let Some(dependent_characteristic) = &mut characteristic.dependent_characteristic {
             rename_item_list(
                 &mut dependent_characteristic.characteristic_list,
                 rename_table,
             );
+        }
+        // MODULE.CHARACTERISTIC.MAP_LIST
+        if let Some(map_list) = &mut characteristic.map_list {
+            rename_item_list(&mut map_list.name_list, rename_table);
+        }
+        // MODULE.CHARACTERISTIC.VIRTUAL_CHARACTERISTIC
+        if let Some(virtual_characteristic) = &mut characteristic.virtual_characteristic {
+            rename_item_list(
+                &mut virtual_characteristic.characteristic_list,
+                rename_table,
+            );
+        }
+    }
+    // MODULE.MEASUREMENT
+    for measurement in &mut merge_module.measurement {
+        // MODULE.MEASUREMENT.VIRTUAL
+        if let Some(var_virtual) = &mut measurement.var_virtual {
+            rename_item_list(&mut var_virtual.measuring_channel_list, rename_table);
+        }
+    }
+    // MODULE.INSTANCE
+    for instance in &mut merge_module.instance {
+        // MODULE.INSTANCE.OVERWRITE.INPUT_QUANTITY
+        for overwrite in &mut instance.overwrite {
+            if let Some(input_quantity) = &mut overwrite.input_quantity {
+                if let Some(newname) = rename_table.get(&input_quantity.name) {
+                    input_quantity.name = newname.to_owned();
+                }
+            }
+        }
+    }
+    // MODULE.TYPEDEF_AXIS
+    for typedef_axis in &mut merge_module.typedef_axis {
+        // MODULE.TYPEDEF_AXIS.input_quantity
+        if let Some(newname) = rename_table.get(&typedef_axis.input_quantity) {
+            typedef_axis.input_quantity = newname.to_owned();
         }
     }
     // MODULE.TYPEDEF_CHARACTERISTIC
@@ -697,8 +758,20 @@ fn rename_objects(merge_module: &mut Module, rename_table: &HashMap<String, Stri
             }
         }
         // MODULE.VARIANT_CODING.VAR_CHARACTERISTIC
-        for var_characteristic in &mut variant_coding.var_characteristic {
-            rename_item_list(&mut var_characteristic.criterion_name_list, rename_table);
+        // the name of a VAR_CHARACTERISTIC is the name of a CHARACTERISTIC or AXIS_PTS;
+        // its criterion_name_list refers to VAR_CRITERIONs, which are not renamed
+        let renamed_var_characteristics: Vec<(usize, String)> = variant_coding
+            .var_characteristic
+            .iter()
+            .enumerate()
+            .filter_map(|(idx, var_characteristic)| {
+                rename_table
+                    .get(var_characteristic.get_name())
+                    .map(|newname| (idx, newname.to_owned()))
+            })
+            .collect();
+        for (idx, newname) in renamed_var_characteristics {
+            variant_coding.var_characteristic.rename_item(idx, &newname);
         }
     }
 }
@@ -947,6 +1020,14 @@ fn rename_typedef_refs(merge_module: &mut Module, rename_table: &HashMap<String,
             if let Some(newname) = rename_table.get(&structure_component.component_type) {
                 structure_component.component_type = newname.to_owned();
             }
+        }
+    }
+
+    // MODULE.INSTANCE
+    for instance in &mut merge_module.instance {
+        // MODULE.INSTANCE.type_ref
+        if let Some(newname) = rename_table.get(&instance.type_ref) {
+            instance.type_ref = newname.to_owned();
         }
     }
 }
